@@ -214,6 +214,13 @@ ENGINES["orswot"]["configs"]["quick"] += [orcfg("orswot_misuse3.cfg", flags=("--
 ENGINES["map_or"]["configs"]["quick"] += [{"cfg": "map_or_misuse.cfg", "module": "MC_Map.tla", "flags": ["--vm-only", "--shared-actor", "--m", "2", "--k", "2"], "invariants": ["TypeOK"]}]
 ENGINES["map_mv"]["configs"]["quick"] += [{"cfg": "map_mv_misuse.cfg", "module": "MC_Map.tla", "flags": ["--vm-only", "--shared-actor", "--m", "1", "--k", "2"], "invariants": ["TypeOK"]}]
 
+# ---- a saved (stale) snapshot merged later, for the other state-replicated types ----------------------
+ENGINES["merkle"]["configs"]["quick"] += [{"cfg": "merkle_qsnap.cfg", "module": "MC_Merkle.tla", "flags": ["--persist", "--laws"], "invariants": INV_MERKLE}]
+ENGINES["glist"]["configs"]["quick"] += [{"cfg": "glist_qsnap.cfg", "module": "MC_List.tla", "flags": ["--persist", "--laws"], "invariants": INV_LIST}]
+ENGINES["simple"]["configs"]["quick"] += [simplecfg("gcounter_snap", "gcounter"), simplecfg("lww_snap", "lww")]
+ENGINES["map_or"]["configs"]["quick"] += [mapcfg("map_or_qsnap.cfg", 2, 1)]
+ENGINES["map_mv"]["configs"]["quick"] += [mapcfg("map_mv_qsnap.cfg", 1, 2)]
+
 # ---- thorough tier = quick configs + larger exhaustive models ----------------------------------
 def _t(engine, extra):
     ENGINES[engine]["configs"]["thorough"] = list(ENGINES[engine]["configs"]["quick"]) + extra
